@@ -528,7 +528,7 @@ def ordered_map_valid_indexed_stream(data_field, map_field, result_field,
         for sm_start, sm_end in sub_map_chunks:
 
             i_limits = get_valid_value_extents(map_, sm_start, sm_end, invalid)
-            if i_limits[0] == -1:
+            if i_limits[0] == invalid:
                 # no unfiltered values in this chunk so just assign empty entries to the result field
                 result_indices.fill(ri_accum)
                 result_field.indices.write(result_indices[:sm_end - sm_start])
